@@ -78,6 +78,42 @@ theorem admit_iff (s : State) (cfg : Cfg) (p : Pod) :
             · intro h; exact ⟨hL, hN, h⟩
             · intro h; exact h.2.2
 
+/-! #### known finding `C03:default-quota-unlimited-in-runtime-mode`
+`refreshRuntimeNoLock` returns `GetMax()` for koordinator-default-quota / koordinator-system-quota without
+storing it, so their `CalculateInfo.Runtime` stays the empty list (`Quota.runtime = RL.empty`, never
+`setRuntime`).  In runtime mode the limit list is then empty and `LessThanOrEqual` is vacuous. -/
+
+/-- the default quota (group 1 under the root) with max cpu = 4, runtime list never written. -/
+def dqState : State := quotaSet (init 1) 1 rootName (fun d => if d = 0 then some 4 else none) RL.empty
+
+/-- a pod of that quota asking for cpu = 8. -/
+def dqPod : Pod :=
+  { id := 1, quota := 1, np := false, req := fun d => if d = 0 then some 8 else none, inCache := true, assigned := false }
+
+/-- admitted in runtime mode although used + request = 8 > max = 4; rejected with the runtime switch off. -/
+theorem default_quota_counterexample :
+    attempt dqState ⟨true, false⟩ dqPod = .success ∧
+    attempt dqState ⟨true, true⟩ dqPod = .success ∧
+    attempt dqState ⟨false, false⟩ dqPod = .unschedulable ∧
+    (findQ dqState.quotas 1).map (fun q => (q.max 0, q.runtime 0, mreq q dqPod 0 + q.used 0)) = some (some 4, none, 8) := by
+  decide
+
+/-- hence "admitted ⇒ within max" does NOT hold for every state of the model: the closed-loop theorems below
+    need `RuntimeOK`, which fails for the default/system quota. -/
+theorem admitted_within_max_counterexample :
+    ¬ ∀ (s : State) (cfg : Cfg) (p : Pod), attempt s cfg p = .success →
+        ∀ q, findQ s.quotas p.quota = some q → ∀ d, d < s.dims → ∀ m, q.max d = some m → mreq q p d + q.used d ≤ m := by
+  intro h
+  have hadm : attempt dqState ⟨true, false⟩ dqPod = .success := by decide
+  have hfacts : (findQ dqState.quotas 1).map (fun q => (q.max 0, mreq q dqPod 0 + q.used 0)) = some (some 4, 8) := by decide
+  cases hq : findQ dqState.quotas 1 with
+  | none => rw [hq] at hfacts; cases hfacts
+  | some q =>
+    rw [hq] at hfacts
+    simp only [Option.map_some, Option.some.injEq, Prod.mk.injEq] at hfacts
+    have := h dqState ⟨true, false⟩ dqPod hadm q hq 0 (by decide) 4 hfacts.1
+    omega
+
 /-- one step of the ancestor walk. -/
 theorem checkRec_step (D : Nat) (qs : List Quota) (cfg : Cfg) (leaf : Quota) (p : Pod) (fuel cur : Nat) :
     checkRec D qs cfg leaf p (fuel + 1) cur = .success ↔
